@@ -31,7 +31,16 @@ func (w *World) guard(n *node, kind string, f func()) (ok bool) {
 				st = st[:1800]
 			}
 			w.mon.lastPanic = s
-			w.violate("C14", panicAlso(s), "panic in %s at node %d: %v\n%s", kind, n.id, s, st)
+			also := panicAlso(s)
+			if strings.Contains(s, "ConfStates not equivalent") {
+				// raft's check that the configuration it rebuilt equals the ConfState it was given
+				if strings.Contains(st, ".restore(") {
+					also = []string{"C09", "C10"} // while installing a snapshot
+				} else {
+					also = []string{"C10", "C13"} // at start-up
+				}
+			}
+			w.violate("C14", also, "panic in %s at node %d: %v\n%s", kind, n.id, s, st)
 			n.rn = nil
 			ok = false
 		}
@@ -94,6 +103,9 @@ func (w *World) initDump(n *node) {
 	n.outNow = make([]msgMeta, st.NMsgs)
 	n.outAfter = make([]msgMeta, st.NMsgsAfter)
 	w.refreshShadow(n, &st, nil, "start")
+	if !n.up() {
+		return
+	}
 	w.refreshTimeout(n, &st)
 	w.onStart(n, &st)
 }
@@ -136,6 +148,9 @@ func (w *World) call(n *node, kind string, in *pb.Message, f func()) bool {
 		}
 	}
 	w.refreshShadow(n, &post, in, kind)
+	if !n.up() {
+		return false
+	}
 	w.monitors(n, kind, in, &pre, &post, created)
 	w.refreshTimeout(n, &post)
 	n.st = post
@@ -170,7 +185,15 @@ func (w *World) metaFor(n *node, m *pb.Message, post *raft.VerifState) msgMeta {
 // change only when a leader's append or snapshot is delivered), log shape, and
 // the global log-matching map (C03), and scans new entries for C20.
 func (w *World) refreshShadow(n *node, post *raft.VerifState, in *pb.Message, kind string) {
-	ents := n.rn.VerifEntries(post.FirstIndex, post.LastIndex)
+	// reading [firstIndex, lastIndex] of the node's own log is what raft itself does
+	// when it builds the next append; if that read trips one of raft's assertions
+	// (the stable and unstable parts no longer fit together) it is reported like a
+	// panic in any other call and the node counts as crashed
+	var ents []raft.VerifEntry
+	if !w.guard(n, "read of the logical log after "+kind, func() { ents = n.rn.VerifEntries(post.FirstIndex, post.LastIndex) }) {
+		w.violate("C18", []string{"C03"}, "node %d: the logical log (%d,%d] cannot be read after %s", n.id, post.FirstIndex-1, post.LastIndex, kind)
+		return
+	}
 	newBase := post.FirstIndex - 1
 	if uint64(len(ents)) != post.LastIndex-newBase {
 		w.violate("C18", []string{"C03"}, "node %d: log view returned %d entries for (%d,%d]", n.id, len(ents), newBase, post.LastIndex)
@@ -201,6 +224,17 @@ func (w *World) refreshShadow(n *node, post *raft.VerifState, in *pb.Message, ki
 		if post.LastIndex < oldTop && newBase <= oldTop {
 			w.violate("C03", []string{"C18", "C01"}, "I2: node %d log shrank %d->%d in %s", n.id, oldTop, post.LastIndex, kind)
 		}
+	}
+	if kind != "start" && !mayRewrite && post.LastIndex > oldTop && oldTop >= newBase &&
+		n.st.Role != raft.StateLeader && post.Role != raft.StateLeader {
+		// only a leader appends on its own; everybody else's log grows through MsgApp
+		// (or is replaced by MsgSnap) and through nothing else - in particular not when
+		// a storage write is acknowledged or a Ready is advanced
+		also := []string{"C18"}
+		if n.snapOutstanding || (in != nil && in.GetSnapshot() != nil) {
+			also = append(also, "C09")
+		}
+		w.violate("C03", also, "I2: node %d (not leader) log grew %d->%d in %s without an append being delivered", n.id, oldTop, post.LastIndex, kind)
 	}
 	ns := make([]sEnt, len(ents))
 	prev := baseChain
